@@ -232,6 +232,13 @@ func genNearEnd(t *rapid.T) Case {
 	if rapid.Bool().Draw(t, "anyt") {
 		tt = rapid.Float64Range(0, 1).Draw(t, "ttv")
 	}
+	if rapid.Bool().Draw(t, "atorigin") {
+		// the touching point near the origin, where the doubles are spaced as finely as
+		// the computation errs: there a computed crossing does leave the envelopes
+		d := [2]float64{p2[0] - p1[0], p2[1] - p1[1]}
+		p1 = [2]float64{-tt*d[0] + float64(rapid.IntRange(-9, 9).Draw(t, "ox"))*1e-3/3, -tt*d[1] + float64(rapid.IntRange(-9, 9).Draw(t, "oy"))*1e-4/7}
+		p2 = [2]float64{p1[0] + d[0], p1[1] + d[1]}
+	}
 	q1 := [2]float64{nudge(p1[0]+tt*(p2[0]-p1[0]), rapid.IntRange(-3, 3).Draw(t, "ux")), nudge(p1[1]+tt*(p2[1]-p1[1]), rapid.IntRange(-3, 3).Draw(t, "uy"))}
 	q2 := [2]float64{f("cx"), f("cy")}
 	if q1 == q2 {
